@@ -222,9 +222,9 @@ var c06Families = []c06Family{
 	}},
 	{"hostile-data", func(tier string) int {
 		if tier == "thorough" {
-			return 60000
+			return 1000000
 		}
-		return 6000
+		return 40000
 	}, func(ctx *fw.Ctx, k int) fw.Result {
 		g := &gen.G{R: ctx.Rng}
 		g.O = c02Opts(ctx.Rng, ctx.Tier)
@@ -326,9 +326,9 @@ var c06Families = []c06Family{
 	}},
 	{"eval-expr", func(tier string) int {
 		if tier == "thorough" {
-			return 200000
+			return 3000000
 		}
-		return 20000
+		return 100000
 	}, func(ctx *fw.Ctx, k int) fw.Result {
 		// standalone expressions: EvalExpr must return (value, nil) or (nil-ish, error)
 		var src string
@@ -372,9 +372,9 @@ var c06Families = []c06Family{
 	}},
 	{"globals-files", func(tier string) int {
 		if tier == "thorough" {
-			return 100000
+			return 1000000
 		}
-		return 10000
+		return 50000
 	}, func(ctx *fw.Ctx, k int) fw.Result {
 		all := c01Systematic()
 		var b strings.Builder
